@@ -243,7 +243,10 @@ def runKill (j : Json) : Json :=
   let ops := arr! j "ops"
   let acked := nat! j "acked"
   let obs := arr! j "observed"
-  let (ssn, _) := (ops.take acked).foldl (fun (acc : Array Store × Nat) op => ((stepOp acc.2 acc.1 op).1, acc.2 + 1)) (ss0, 0)
+  -- acknowledged calls the implementation reported as failed on SQLITE_BUSY (observed fact): failed calls change nothing
+  let failed := (arr! j "failed").map fun x => (x.getNat?).toOption.getD 0
+  let (ssn, _) := (ops.take acked).foldl (fun (acc : Array Store × Nat) op =>
+    ((if failed.contains acc.2 then acc.1 else (stepOp acc.2 acc.1 op).1), acc.2 + 1)) (ss0, 0)
   let cands : List (String × Array Store) :=
     ("n", ssn) :: (match ops.drop acked with
       | [] => []
